@@ -171,13 +171,17 @@ PROPERTY_RULES = {
     },
     "C07": {
         "rules": ["RELAX-AGREE"],
-        "explanation": "BellmanFordMoore::distances: every relaxation store dist[v] = dist[u] + w reads (u, v, w) from the same "
-                       "arcs[i], is guarded by i < arcs_len, dist[u] != isize::MAX and dist[v] > dist[u] + w, and sets the "
-                       "`changed` flag (R1, R3); the unrolled copies relax arcs i, i+1, ..., i+k-1 and the counter advances by k "
-                       "(R2); rounds are `1..order`; the final pass examines every arc with the same strict comparator and "
-                       "unreached guard, None only there, Some only after it (R4); new() checks s < order, fills isize::MAX and "
-                       "sets dist[s] = 0 (R5).",
-        "trusted_base": TB,
+        "explanation": "BellmanFordMoore::distances, decided over relaxation units and arc visits (inline code or a local "
+                       "closure, raw pointers or indexing, any unrolling): every store into dist[] is dist[head] = dist[tail] + w "
+                       "with tail, head, w read from one arc tuple, guarded by dist[tail] != isize::MAX and (dist[tail] + w) < "
+                       "dist[head] (R1); in every round every arc index 0..arcs_len is visited - the counter skeleton of the round "
+                       "(guards i + c < len, visits arcs[i + k], advance i += s, tail) is extracted from the MIR and evaluated "
+                       "exhaustively for arcs_len = 0..12 (R2, ARC-COVERAGE); every storing relaxation raises the `changed` flag, "
+                       "which is reset per round and tested (R3); rounds are `1..order`; the final pass examines every arc, returns "
+                       "None only under the strict test with the unreached guard and Some only after the whole pass (R4); new() "
+                       "checks s < order, fills isize::MAX and sets dist[s] = 0 (R5).",
+        "trusted_base": TB + ["lemma L-PERIODIC: a round whose counter advances by a constant s <= 4 behaves periodically in "
+                              "arcs_len, so arcs_len = 0..12 covers every residue and two full periods"],
         "not_decided": "that order-1 rounds suffice and that the distances are exact (inductive value-level argument)",
         "assumptions": COMMON_ASSUMPTIONS,
     },
